@@ -87,7 +87,8 @@ ADVERSARIAL = [
 ]
 # pairs of DIFFERENT identifiers that Unicode normalisation (of the string or of single characters) would identify
 EQUIVALENT_PAIRS = [("\u212b", "\u00c5"), ("x\u212a", "xK"), ("\u2126m", "\u03a9m"), ("e\u0301", "\u00e9"), ("\u1fbe", "\u03b9"), ("\ufb01", "fi"),
-                    ("\uff21", "A"), ("\u00b5", "\u03bc"), ("\u0340", "\u0300")]
+                    ("\uff21", "A"), ("\u00b5", "\u03bc"), ("\u0340", "\u0300"),
+                    ("\u4e2d" * 2100 + "A", "\u4e2d" * 2100 + "B"), ("\U0001F600" * 1100 + "x", "\U0001F600" * 1100 + "y"), ("\u00e9" * 5000, "\u00e9" * 5001)]
 
 
 def adversarial_ids(rng, n):
@@ -192,6 +193,15 @@ def c15(run):
             sub = os.path.join(base, "c%d" % k)
             os.makedirs(sub)
             hs, root = new_store(sub, d, w, a, ns)
+            decoys = []
+            if k % 4 == 1:
+                # files in the WORKING DIRECTORY named like the content's digest (plain and sharded): where an object lives does not depend on them
+                for dn in (H(data2), os.path.join(*readme_shard(d, w, H(data2)))):
+                    dp_ = os.path.join(os.getcwd(), dn)
+                    os.makedirs(os.path.dirname(dp_), exist_ok=True)
+                    with open(dp_, "wb") as fh:
+                        fh.write(data2)
+                    decoys.append(dn.split(os.sep)[0])
             try:
                 layout_script(hs, pids, data1, data2, doc1, doc2, fmt2, sub, H)
             except Exception as e:  # noqa: BLE001 - the fixed script consists of calls that must succeed
@@ -200,6 +210,9 @@ def c15(run):
                               {"depth": d, "width": w, "algorithm": a, "pids": pids, "ns": ns, "fmt2": fmt2, "exception": repr(e)[:300]})
                 shutil.rmtree(sub, ignore_errors=True)
                 continue
+            for dn in decoys:
+                dp_ = os.path.join(os.getcwd(), dn)
+                shutil.rmtree(dp_, ignore_errors=True) if os.path.isdir(dp_) else (os.path.exists(dp_) and os.remove(dp_))
             got = tree(root)
             yml = got.pop("hashstore.yaml", None)
             got = {p: v for p, v in got.items() if not p.endswith(".log")}
@@ -431,6 +444,39 @@ def c18(run):
             for pr in problems[:3]:
                 run.violation({"kind": "ids", "what": pr.split(":")[0][:40]}, pr, {"group": group, "format": fmt, "size": len(data)})
             shutil.rmtree(sub, ignore_errors=True)
+        # (pid, format) pairs whose CONCATENATIONS coincide, through one store instance
+        for (p1, f1, p2, f2) in (("doi:10.5063/F1", "ABC:eml", "doi:10.5063/F1ABC", ":eml"), ("ab", "c", "a", "bc"), ("x", "yz" + DEFAULT_NS, "xyz", DEFAULT_NS)):
+            sub = os.path.join(base, "cc%d" % len(p1))
+            os.makedirs(sub)
+            hs, root = new_store(sub)
+            d1p, d2p = os.path.join(sub, "m1"), os.path.join(sub, "m2")
+            with open(d1p, "wb") as fh:
+                fh.write(b"document of the first pair")
+            with open(d2p, "wb") as fh:
+                fh.write(b"document of the second pair")
+            probs = []
+
+            def rd(p_, f_):
+                try:
+                    s_ = hs.retrieve_metadata(p_, f_)
+                    r_ = s_.read()
+                    s_.close()
+                    return r_
+                except Exception as e:  # noqa: BLE001
+                    return "exn:" + exn_name(e)
+            hs.store_metadata(p1, d1p, f1)
+            if rd(p2, f2) != "exn:ValueError":
+                probs.append("retrieve_metadata(%r, %r) finds the document of (%r, %r)" % (p2, f2, p1, f1))
+            hs.store_metadata(p2, d2p, f2)
+            if rd(p1, f1) != b"document of the first pair" or rd(p2, f2) != b"document of the second pair":
+                probs.append("documents of (%r, %r) and (%r, %r) are mixed up" % (p1, f1, p2, f2))
+            hs.delete_metadata(p2, f2)
+            if rd(p1, f1) != b"document of the first pair":
+                probs.append("delete_metadata(%r, %r) removed the document of (%r, %r)" % (p2, f2, p1, f1))
+            run.case("search-concatenations", (p1, f1, p2, f2), sample={"search": "(pid, format) pairs with equal concatenation", "pairs": [[p1, f1[:20]], [p2, f2[:20]]]})
+            for pr in probs[:2]:
+                run.violation({"kind": "concatenation"}, pr, {"pairs": [[p1, f1], [p2, f2]]})
+            shutil.rmtree(sub, ignore_errors=True)
         if tree(sentinel) != {"sub/keep": b"keep"}:
             run.violation({"kind": "sentinel"}, "a directory next to the store root was modified", {"sentinel": sorted(tree(sentinel))})
         if sorted(os.listdir(os.getcwd())) != cwd_before:
@@ -655,8 +701,11 @@ def c17(run):
         bad_size = ["I0", "I-1", "U", S("5"), "F", "Z", "Y"]
         bad_data = ["N", S(""), S("  "), "I5", "Y", "X", "Z", "F", "T"]
         # method -> (valid argument vector, per-parameter invalid values, in the order of the model's args_* functions)
+        newsrc = os.path.join(base, "newsrcfile")
+        with open(newsrc, "wb") as fh:
+            fh.write(b"content that is not in the store yet " * 300)
         METHODS = {
-            "store_object": (["S" + hx("new-pid"), S(src), "N", "N", "N", "N"],
+            "store_object": (["S" + hx("new-pid"), S(newsrc), "N", "N", "N", "N"],
                              [bad_str, bad_data, bad_algo, [S(""), S(" ")], bad_algo + ["N"], bad_size]),
             "tag_object": ([S("new-pid"), S(sha)], [bad_str, bad_str]),
             "delete_if_invalid_object": (["O", S(sha), S("SHA-256"), "N"], [["N", S("x"), "I1", "Z"], bad_str, bad_str + bad_algo, bad_size]),
@@ -758,6 +807,13 @@ def c17(run):
                 want = "PidRefsDoesNotExist"
             if want and gi != want:
                 run.violation({"kind": "class", "method": meth}, "%s on an unknown pid raised %s, documented class is %s" % (meth, gi, want), {"method": meth, "args": v})
+            # an unsupported data type (or a blank string) with a valid pid: TypeError, nothing touched
+            datapos = {"store_object": 1, "store_metadata": 1}.get(meth)
+            if datapos is not None and v[datapos] in bad_data and v[0] == METHODS[meth][0][0]:
+                if gi != "TypeError" or changed:
+                    run.violation({"kind": "unsupported-data", "method": meth, "class": gi},
+                                  "%s with data %s (not a str / Path / buffered binary stream) -> %s%s; documented: TypeError, store unchanged" % (
+                                      meth, v[datapos], gi, " and the store changed" if changed else ""), {"method": meth, "args": v, "outcome": gi})
             # an unsupported algorithm name, all other arguments well-formed (possibly mismatching the content): UnsupportedAlgorithm, nothing touched
             algpos = {"store_object": [2, 4], "delete_if_invalid_object": [2], "get_hex_digest": [1]}.get(meth, [])
             valid = METHODS[meth][0]
@@ -1195,6 +1251,27 @@ def c01(run):
                 hs.store_object("x-the-pid", src)
                 log.append("store_object(x-the-pid, same) ok [before the watched store]")
             m = hs.store_object("the-pid", src)
+            # every third history: the calls "on other pids" use the OTHER Unicode normal form of a second watched pid
+            nfc_pid, nfd_pid = "r\u00e9sum\u00e9-pid", "re\u0301sume\u0301-pid"
+            if hno % 3 == 2:
+                hs.store_object(nfc_pid, src)
+                for nm_, fn_ in (("delete_object", lambda: hs.delete_object(nfd_pid)), ("delete_metadata", lambda: hs.delete_metadata(nfd_pid)),
+                                 ("tag_object", lambda: hs.tag_object(nfd_pid, m.cid)), ("delete_object", lambda: hs.delete_object(nfd_pid))):
+                    try:
+                        fn_()
+                        log.append("%s(<NFD form of a stored NFC pid>) ok" % nm_)
+                    except Exception as e:  # noqa: BLE001
+                        log.append("%s(<NFD form of a stored NFC pid>) %s" % (nm_, exn_name(e)))
+                    try:
+                        s3 = hs.retrieve_object(nfc_pid)
+                        g3 = s3.read()
+                        s3.close()
+                    except Exception as e:  # noqa: BLE001
+                        g3 = "exn:" + exn_name(e)
+                    if g3 != data:
+                        run.violation({"kind": "history-normal-forms"}, "after [%s] the pid stored in NFC form is no longer served (%s): calls on its NFD spelling are calls on ANOTHER pid" % (
+                            "; ".join(log), str(g3)[:30]), {"algorithm": a, "history": log})
+                        break
             wrong = "0" * len(m.cid)
             menu = [
                 ("store_object(q, same)", lambda q: hs.store_object(q, src)),
@@ -1300,6 +1377,8 @@ def c19(run):
         else:
             sz, ck = "b", "o"
         real = {"algo": algo, "case": case_}
+        if mode in ("wrongck", "wrongck-nondefault", "correct-nondefault") and rng.random() < 0.5:
+            real["add"] = rng.choice([algo, algo.lower(), algo.upper()])      # the additional algorithm names the checksum algorithm too
         if mode == "wrongck-other":
             # the checksum supplied is the digest of the OTHER content, which is put into the store first (same length)
             ob = 15 - b
@@ -1451,8 +1530,10 @@ def c20(run):
     base = scratch_root()
     F = fhs().FileHashStore
     try:
-        data = ("object-content-for-the-client " * 7).encode()
-        doc = b"<metadata>for the client</metadata>"
+        DATAS = [("object-content-for-the-client " * 7).encode(), b"line one\r\nline two\rline three\n" * 5,
+                 ("\u00e9\u4e2d\U0001F600 text " * 150).encode("utf-8")]
+        DOCS = [b"<metadata>for the client</metadata>", b"<m>\r\n</m>\r\n", ("<m>" + "\u00fc" * 1500 + "</m>").encode("utf-8")]
+        data, doc = DATAS[0], DOCS[0]
         src = os.path.join(base, "obj.bin")
         dsrc = os.path.join(base, "doc.xml")
         with open(src, "wb") as fh:
@@ -1491,7 +1572,13 @@ def c20(run):
                         opts[o] = rng.choice(VALUES[o])
                 if verb == "-storemetadata" and "-path" in opts and rng.random() < 0.7:
                     opts["-path"] = dsrc
-            # two copies of one store: bound-pid stored with two metadata documents
+            # two copies of one store: bound-pid stored with two metadata documents; the content rotates (plain / CR LF / long multi-byte)
+            if verb in ("-retrieveobject", "-retrievemetadata") or k % 5 == 0:
+                vi = k % 3
+                with open(src, "wb") as fh:
+                    fh.write(DATAS[vi])
+                with open(dsrc, "wb") as fh:
+                    fh.write(DOCS[vi])
             sub = os.path.join(base, "k%d" % k)
             os.makedirs(sub)
             roots = []
